@@ -11,6 +11,9 @@ import ZnVerif.Ops.C19
 import ZnVerif.Ops.C14
 import ZnVerif.Ops.C11
 import ZnVerif.Ops.C10
+import ZnVerif.Ops.C20
+import ZnVerif.Ops.ErrLine
+import ZnVerif.Ops.Parse
 import ZnVerif.Ops.C15
 import ZnVerif.Ops.C13
 import ZnVerif.Ops.Lex
@@ -30,7 +33,10 @@ def handlers : List (String → List String → Option String) := [
   Lex.handle,
   C13.handle,
   C15.handle,
-  C10.handle
+  C10.handle,
+  C20.handle,
+  Parse.handle,
+  ErrLine.handle
 ]
 
 def dispatch (op : String) (args : List String) : String :=
